@@ -76,23 +76,25 @@ def merge_results(rs):
 
 def attempt(job, strat, timeout):
     kinds = list(range(job.unit.nevents)) if 'k' in strat else [None]
-    rs = []
-    for k in kinds:
-        for gfix in guard_splits(job, strat, k):
-            r = cbmc_once(job, strat, k, True, False, timeout, gfix)
-            if r['verdict'] == 'failed' and any('witness:reachable' not in f[1] for f in r['failed']):
-                # obtain one counterexample per failed assertion
-                r2 = cbmc_once(job, strat, k, False, True, timeout * 2, gfix)
-                r['traces'] = r2.get('traces', {})
-                r['time'] += r2['time']
-            rs.append(r)
-            if r['verdict'] in ('error', 'timeout'): return merge_results(rs)
+    subs = [(k, gfix) for k in kinds for gfix in guard_splits(job, strat, k)]
+    def one(sub):
+        k, gfix = sub
+        r = cbmc_once(job, strat, k, True, False, timeout, gfix)
+        if r['verdict'] == 'failed' and any('witness:reachable' not in f[1] for f in r['failed']):
+            # obtain one counterexample per failed assertion
+            r2 = cbmc_once(job, strat, k, False, True, timeout * 2, gfix)
+            r['traces'] = r2.get('traces', {})
+            r['time'] += r2['time']
+        return r
+    if len(subs) == 1: return merge_results([one(subs[0])])
+    with cf.ThreadPoolExecutor(min(8, len(subs))) as ex:
+        rs = list(ex.map(one, subs))
     return merge_results(rs)
 
 
 def run_job(job):
     u = job.unit
-    key = '%s|be%d|p%d' % (u.name, u.be, job.h)
+    key = '%s|be%s|p%d' % (u.name, u.be, job.h)
     first = HINTS.get(key, 'n')
     order = [first] + [x for x in STRATS if x != first]
     tried = []
@@ -193,7 +195,7 @@ class Check:
             if unw: inconclusive.append((j, 'unwinding bound too small: %s' % unw[0][1])); continue
             for cex in j.cex:
                 u = j.unit
-                rec = {'property': s.prop, 'program': u.name, 'be': u.be, 'backend': BE_NAMES[u.be], 'harness': j.h,
+                rec = {'property': s.prop, 'program': u.name, 'be': u.be, 'backend': BE_NAMES.get(u.be, str(u.be)), 'harness': j.h,
                        'conf': u.index[j.h]['conf'], 'script': u.index[j.h]['script'], 'label': cex['label'],
                        'inputs': cex['inputs'], 'unit_opts': getattr(u, 'spec', None)}
                 if cex['inputs'] is None:
@@ -220,7 +222,7 @@ class Check:
         wall = time.time() - s.t0
         if os.environ.get('VF_LEARN'):
             for j in s.jobs:
-                k = '%s|be%d|p%d' % (j.unit.name, j.unit.be, j.h)
+                k = '%s|be%s|p%d' % (j.unit.name, j.unit.be, j.h)
                 if j.res.get('strategy', 'n') != 'n' and j.res['verdict'] == 'success': HINTS[k] = j.res['strategy']
                 elif k in HINTS and j.res.get('strategy') == 'n': del HINTS[k]
             json.dump(HINTS, open(HINTS_PATH, 'w'), indent=0, sort_keys=True)
@@ -233,21 +235,21 @@ class Check:
             log('KNOWN-FINDING: property=%s %s [%s]' % (s.prop, k['what'], k['id']))
         vpaths = []
         for n, v in enumerate(violations):
-            name = '%s-%s-be%d-p%d-%s.json' % (s.prop, v['program'], v['be'], v['harness'], hashlib.md5(v['label'].encode()).hexdigest()[:6])
+            name = '%s-%s-be%s-p%d-%s.json' % (s.prop, v['program'], v['be'], v['harness'], hashlib.md5(v['label'].encode()).hexdigest()[:6])
             path = os.path.join(VERIF, 'replays', name)
             json.dump(v, open(path, 'w'), indent=1)
             vpaths.append(path)
             log('VIOLATION property=%s replay=%s' % (s.prop, path))
             log('  %s / %s / %s / kind=%s: %s' % (v['program'], v['backend'], v['conf'], v['kind'], v['label']))
         for j, why in inconclusive[:20]:
-            log('INCONCLUSIVE %s be%d harness %d (%s): %s' % (j.unit.name, j.unit.be, j.h, j.label, why))
+            log('INCONCLUSIVE %s be%s harness %d (%s): %s' % (j.unit.name, j.unit.be, j.h, j.label, why))
             if j.res['verdict'] == 'error': log(j.res['raw_tail'][-800:])
         funcs = set()
         for u in s.units:
             for f in u.functions: funcs.add(f)
         samples = []
         for j in s.jobs[:3]:
-            samples.append({'program': j.unit.name, 'backend': BE_NAMES[j.unit.be], 'pre_state': j.unit.index[j.h]['conf'],
+            samples.append({'program': j.unit.name, 'backend': BE_NAMES.get(j.unit.be, str(j.unit.be)), 'pre_state': j.unit.index[j.h]['conf'],
                             'prefix_script': j.unit.index[j.h]['script'], 'symbolic': 'event kind, 32-bit payload, one bit per guard site',
                             'verdict': j.res['verdict'], 'vccs': j.res.get('vccs'), 'cbmc_s': round(j.res['time'], 2), 'strategy': j.res.get('strategy')})
         if samples_extra: samples += samples_extra
@@ -264,14 +266,14 @@ class Check:
                 'samples': samples,
                 'exhaustive': False,
                 'programs': len(set(u.name for u in s.units)), 'program_names': sorted(set(u.name for u in s.units)),
-                'back_ends': sorted(set(BE_NAMES[u.be] for u in s.units)),
+                'back_ends': sorted(set(BE_NAMES.get(u.be, str(u.be)) for u in s.units)),
                 'queries': len(s.jobs), 'queries_success': sum(1 for j in s.jobs if j.res['verdict'] == 'success'),
                 'vccs_generated': vccs, 'vccs_after_simplification': vccs_rem,
                 'solver_s': round(solver_s, 2), 'cbmc_wall_s': round(getattr(s, 't_solve', 0), 1), 'build_s': round(getattr(s, 't_build', 0), 1),
                 'functions_encoded': len(funcs),
                 'functions_encoded_msm_sample': demangle_sample(funcs),
                 'bounds': s.bounds,
-                'inconclusive': [('%s be%d p%d' % (j.unit.name, j.unit.be, j.h), why) for j, why in inconclusive],
+                'inconclusive': [('%s be%s p%d' % (j.unit.name, j.unit.be, j.h), why) for j, why in inconclusive],
                 'known_findings_hit': sorted(set(k['id'] for _, k in knowns)),
                 'strategies_used': {st: sum(1 for j in s.jobs if j.res.get('strategy') == st) for st in STRATS},
             },
